@@ -43,7 +43,19 @@ def run(chk):
         rng.seed("%d/c09-1/%d" % (chk.seed, wi))      # every world has its own stream: families do not disturb each other
         modelled = rng.random() < 0.6
         has_cross = rng.random() < 0.85
-        wj, sph = area_world(rng, cross=has_cross) if modelled else any_world(rng, cross=has_cross)
+        wide = wi % 5 == 3
+        if wide:
+            # spherical sections whose two points are more than 180 degrees of longitude apart (the direction of the section is
+            # the difference of the two points as written, not the short way round)
+            modelled, has_cross = True, True
+            wj, sph = area_world(rng, spherical=True, cross=True)
+            wj["cross section"] = [[[0.0, 0.0], [270.0, 0.0]], [[-150.0, 10.0], [150.0, -20.0]], [[-170.0, 5.0], [175.0, -5.0]], [[10.0, -20.0], [200.0, 30.0]]][(wi // 5) % 4]
+            # stripes of 30 degrees of longitude with their own temperature and composition: a point mapped to the wrong place shows
+            wj["features"] = [{"model": "continental plate", "name": "s%d" % k, "coordinates": [[-180.0 + 30 * k, -60.0], [-150.0 + 30 * k, -60.0], [-150.0 + 30 * k, 60.0], [-180.0 + 30 * k, 60.0]],
+                               "max depth": 7e5, "temperature models": [{"model": "uniform", "temperature": 300.0 + 25.0 * k}],
+                               "composition models": [{"model": "uniform", "compositions": [k % 4]}]} for k in range(12)] + wj["features"]
+        else:
+            wj, sph = area_world(rng, cross=has_cross) if modelled else any_world(rng, cross=has_cross)
         aimed = has_cross and wi % 5 == 1
         if aimed:
             # a section exactly along an axis, in the negative direction for half of them, through a layer that moves:
